@@ -31,22 +31,27 @@ def _run(cmd):
         raise RuntimeError("build failed: %s\n%s" % (" ".join(cmd), p.stdout[-3000:]))
 
 
+_BUILT = set()
+
+
 def build(with_fft=False):
+    """compile (never load) the libraries; idempotent per process tree: forked children inherit _DIR/_BUILT"""
     d = libdir()
     mc = os.path.join(REPO, "ciderpress/lib/mod_cider")
     srcs = [os.path.join(mc, f) for f in (
         "cider_coefs.c", "cider_grids.c", "spline.c", "sph_harm.c", "conv_interpolation.c", "convolutions.c",
         "fast_sdmx.c", "debug_numint.c", "model_utils.c", "frac_lapl.c")]
     jobs = []
-    jobs.append(["gcc", "-O2", "-fopenmp", "-fPIC", "-shared", "-w", "-o", os.path.join(d, "libmcider.so")] + srcs +
-                ["-I" + mc, "-lopenblas", "-llapack", "-lm"])
-    jobs.append(["gcc", "-O2", "-fopenmp", "-fPIC", "-shared", "-w", "-o", os.path.join(d, "libxc_utils.so"),
-                 os.path.join(REPO, "ciderpress/lib/xc_utils/libxc_baselines.c"),
-                 "-I" + os.path.join(PYSCF_DEPS, "include"), "-L" + os.path.join(PYSCF_DEPS, "lib"),
-                 "-Wl,-rpath," + os.path.join(PYSCF_DEPS, "lib"), "-lxc", "-lm"])
-    jobs.append(["gcc", "-O2", "-fopenmp", "-fPIC", "-shared", "-w", "-o", os.path.join(d, "libnumint.so"),
-                 os.path.join(REPO, "ciderpress/lib/numint_cider/nr_numint.c"), "-I" + mc, "-lopenblas", "-lm"])
-    if with_fft:
+    if "base" not in _BUILT:
+        jobs.append(["gcc", "-O2", "-fopenmp", "-fPIC", "-shared", "-w", "-o", os.path.join(d, "libmcider.so")] + srcs +
+                    ["-I" + mc, "-lopenblas", "-llapack", "-lm"])
+        jobs.append(["gcc", "-O2", "-fopenmp", "-fPIC", "-shared", "-w", "-o", os.path.join(d, "libxc_utils.so"),
+                     os.path.join(REPO, "ciderpress/lib/xc_utils/libxc_baselines.c"),
+                     "-I" + os.path.join(PYSCF_DEPS, "include"), "-L" + os.path.join(PYSCF_DEPS, "lib"),
+                     "-Wl,-rpath," + os.path.join(PYSCF_DEPS, "lib"), "-lxc", "-lm"])
+        jobs.append(["gcc", "-O2", "-fopenmp", "-fPIC", "-shared", "-w", "-o", os.path.join(d, "libnumint.so"),
+                     os.path.join(REPO, "ciderpress/lib/numint_cider/nr_numint.c"), "-I" + mc, "-lopenblas", "-lm"])
+    if with_fft and "fft" not in _BUILT:
         fw = os.path.join(REPO, "ciderpress/lib/fft_wrapper")
         jobs.append(["gcc", "-O2", "-fopenmp", "-fPIC", "-shared", "-w", "-o", os.path.join(d, "libfft_wrapper.so"),
                      os.path.join(fw, "cider_fft.c"), os.path.join(STUBS, "fftw_ref.c"),
@@ -56,15 +61,18 @@ def build(with_fft=False):
         out, _ = p.communicate()
         if p.returncode != 0:
             raise RuntimeError("build failed: %s\n%s" % (" ".join(j), out[-3000:]))
+    _BUILT.add("base")
+    if with_fft:
+        _BUILT.add("fft")
     return d
 
 
 def ensure(with_fft=False):
     """idempotent: build + monkeypatch load_library in the *installed* (unmodified) ciderpress"""
     global _DONE
-    if _DONE and not with_fft:
-        return libdir()
     d = build(with_fft)
+    if _DONE:
+        return d
     import numpy
     import ciderpress.lib.load as L
     import ciderpress.lib as LL
